@@ -317,12 +317,13 @@ Proof.
 Qed.
 
 Lemma run_cmd_inside nc s c s' si ex :
+  c_kind c <> KAsync ->
   run_cmd nc s c = (s', Some si, ex) ->
   exists stack, perform_redirs nc s (c_redirs c) [] = (si, stack, true).
 Proof.
-  unfold run_cmd. destruct (perform_redirs nc s (c_redirs c) []) as [[s1 stack] ok].
-  destruct (c_kind c); destruct ok; cbv beta iota zeta; intros E; injection E as _ E2 _; try discriminate;
-    subst si; eauto.
+  unfold run_cmd. intros Hk. destruct (perform_redirs nc s (c_redirs c) []) as [[s1 stack] ok].
+  destruct (c_kind c); try congruence; destruct ok; cbv beta iota zeta; intros E;
+    injection E as _ E2 _; try discriminate; subst si; eauto.
 Qed.
 
 (* exec, with or without an operand: successful redirections stay *)
@@ -334,7 +335,7 @@ Lemma run_cmd_exec nc s c s' inside ex s1 stack :
   /\ ex = match c_kind c with KExecFail false => true | _ => false end.
 Proof.
   unfold run_cmd. intros Hk Hp. rewrite Hp.
-  destruct (c_kind c) as [| | | | | | | |i]; try discriminate; cbv beta iota zeta;
+  destruct (c_kind c) as [| | | | | | | | |i]; try discriminate; cbv beta iota zeta;
     intros E; injection E as <- _ <-.
   - repeat split.
   - destruct (stderr_preserve s1 stack) as [A B]. split; [exact A|]. split; [exact B|].
@@ -381,10 +382,11 @@ Qed.
 
 Lemma oracle_internal_sound nc s c s' si ex :
   sorted (k_tab s) -> below_limit (k_lim s) (k_tab s) ->
+  c_kind c <> KAsync ->
   run_cmd nc s c = (s', Some si, ex) ->
   internal_ok (targets (c_redirs c)) (k_tab s) (k_tab si) = true.
 Proof.
-  intros Hs Hb Hr. apply run_cmd_inside in Hr. destruct Hr as [stack Hp].
+  intros Hs Hb Hk Hr. apply run_cmd_inside in Hr; [|exact Hk]. destruct Hr as [stack Hp].
   apply explained_internal_ok. eapply internal_lemma; eassumption.
 Qed.
 
